@@ -141,8 +141,13 @@ namespace ip {
 		// this object (basic_resolver) alive is released and we're deleted. Make
 		// sure to not touch any members after the handler in that case.
 		bool const empty = m_queue.empty();
+		std::weak_ptr<int> alive = m_alive;
 		v.handler(v.err, std::move(v.ips));
 		if (empty) return;
+
+		// the handler may have destroyed this resolver or cancelled the
+		// remaining lookups
+		if (alive.expired() || m_queue.empty()) return;
 
 		m_timer.expires_at(m_queue.front().completion_time);
 		wait_for_lookup();
